@@ -89,7 +89,7 @@ def _real_values():
         (1, 2, 127), (1, 2, 128), (1, 2, -128), (1, 2, -129), (1, 2, 32767), (1, 2, 32768),
         (1, 2, -32768), (1, 2, -32769), (1, 2, 8388607), (1, 2, 8388608), (1, 2, -8388609),
         (2 ** 60 + 1, 2, -10), (-(2 ** 64 + 3), 2, 5), (65535, 2, -16),
-        (1, 10, 0), (-3, 10, 2), (125, 10, -2), (5, 10, -1), (123, 10, 10), (-75, 10, -3),
+        (1, 10, 0), (-3, 10, 2), (125, 10, -2), (5, 10, -1), (123, 10, 10), (-75, 10, -3), (-123, 10, 1), (12, 10, 1),
     ]
 
 
@@ -202,6 +202,11 @@ def BIG(tier='quick'):
     yield STR('UniversalString'), '\U0001F600' * 300
     for nbits in (7991, 7992, 7993, 8000, 8001, 16001):
         yield BITS, ('110' * nbits)[:nbits]
+    yield I(5, BITS), ('110' * 8001)[:8001]
+    yield E(1, I(2, BITS)), ('011' * 8001)[:8001]
+    yield ('SEQ', (('k', INT, 'R', None), ('b', I(3, BITS, 'A'), 'R', None))), {'k': 1, 'b': ('101' * 8001)[:8001]}
+    yield I(6, OCTS), bytes((i * 3) & 0xFF for i in range(1001))
+    yield E(7, I(8, UTF8, 'P')), ('abé' * 1001)[:1001]
     yield BITS, '0' * 8004
     yield BITS, ('0' * 8000 + '1' * 8000 + '0001')
     yield BITS, ('001' * 6000)[:16003]
@@ -398,6 +403,24 @@ def CH(tier='quick'):
         TT = E(40, T, 'A')
         for v in itertools.islice(choice_values(T), 1):
             yield TT, v
+    # nested and explicitly tagged CHOICE alternatives inside containers that locate components by tag
+    inner = ('CHOICE', (('p', I(5, INT)), ('q', I(6, BOOL))))
+    deep = [('CHOICE', (('x', INT), ('n', inner))),
+            ('CHOICE', (('x', INT), ('e', E(3, inner)))),
+            ('CHOICE', (('n', inner), ('m', ('CHOICE', (('r', I(7, OCTS)), ('s', NULL))))))]
+    for T in deep:
+        for kind in ('SEQ', 'SET'):
+            for opt in ('R', 'O'):
+                R = (kind, (('o', I(20, OCTS), 'O', None), ('c', T, opt, None), ('t', I(21, BOOL), 'R', None)))
+                if not M.legal(R):
+                    continue
+                for v in choice_values(T):
+                    yield R, {'c': v, 't': True}
+                    yield R, {'o': b'z', 'c': v, 't': False}
+        W = ('CHOICE', (('w', T), ('k', I(22, NULL))))
+        if M.legal(W):
+            for v in choice_values(T):
+                yield W, ('w', v)
     # CHOICE inside SEQUENCE / SET (required, optional)
     for T in itertools.islice(choice_types(tier), 0, None, 3):
         for kind in ('SEQ', 'SET'):
@@ -457,6 +480,18 @@ def NEST(tier='quick'):
         assert M.legal(T), T
         for v in _nest_values(T, 6 if tier == 'quick' else 12):
             yield T, v
+
+    # DEFAULT components of record type whose members are all OPTIONAL/DEFAULT: non-empty default vs. empty value etc.
+    allopt = ('SEQ', (('a', INT, 'O', None), ('b', OCTS, 'O', None)))
+    alldef = ('SET', (('a', INT, 'D', 5), ('b', I(1, BOOL), 'O', None)))
+    for kind in ('SEQ', 'SET'):
+        for inner_t, dflt, vals in ((allopt, {'a': 1}, [{}, {'a': 1}, {'a': 2}, {'b': b''}, {'a': 1, 'b': b'x'}]),
+                                    (alldef, {'a': 5, 'b': True}, [{'a': 5}, {'a': 5, 'b': True}, {'a': 6}, {'a': 5, 'b': False}])):
+            T = (kind, (('h', I(30, INT), 'R', None), ('n', inner_t, 'D', M.freeze(dflt)), ('t', I(31, NULL), 'O', None)))
+            assert M.legal(T)
+            for nv in vals:
+                yield T, {'h': 1, 'n': nv}
+                yield T, {'h': 1, 'n': nv, 't': None}
 
     level2 = [T for T in compose(inner_types) if M.legal(T)]
     for T in level2:
